@@ -192,3 +192,20 @@ Theorem C01_ed25519_reference_ladder : forall k P a,
   ed_valid P a -> ed_valid (ed_mul OEd KEd k P) (ed_nmul (Z.to_nat k) a).
 Proof. exact Ed25519_mul_spec. Qed.
 Print Assumptions C01_ed25519_reference_ladder.
+
+(* ---- object identity in the program model the correspondence run executes:
+   an operation whose receiver is an EXISTING object changes that object to the
+   value the operation would have produced in a fresh receiver, and nothing
+   else - no other point of the pool, no scalar.  The implementation is held to
+   this (hidden sharing between objects shows as a different partition). *)
+From Kyber Require Import Group.GrpProg Group.GrpProgFacts.
+
+Theorem C01_overwrite_touches_only_receiver : forall q (s : state q) (o : op) (g d : Z),
+    pushes_to o g -> 0 <= d -> (Z.to_nat d < length (pool q s g))%nat ->
+    let s' := step q s (OPInto g d o) in
+    get q (pool q s' g) d = get q (pool q (step q s o) g) (Z.of_nat (length (pool q s g))) /\
+    (forall i, 0 <= i -> i <> d -> get q (pool q s' g) i = get q (pool q s g) i) /\
+    length (pool q s' g) = length (pool q s g) /\
+    sc q s' = sc q s.
+Proof. exact overwrite_touches_only_receiver. Qed.
+Print Assumptions C01_overwrite_touches_only_receiver.
